@@ -168,8 +168,50 @@ fn extra_sets() -> &'static Vec<(String, Vec<Attribute>)> {
             ("narrow+aggregator-wide".to_string(), vec![o.clone(), mkmsg::as_path(&[(2, vec![65001])]), mkmsg::aggregator(wide, std::net::Ipv4Addr::new(192, 0, 2, 9))]),
             ("255-wide".to_string(), vec![o.clone(), mkmsg::as_path(&[(2, (0..255).map(|i| wide + i).collect())])]),
             ("confed-only+aggregator-wide".to_string(), vec![o, mkmsg::as_path(&[(3, vec![64512])]), mkmsg::aggregator(wide, std::net::Ipv4Addr::new(192, 0, 2, 9))]),
+            // a RELAYED attribute set: values as the decoder hands them on after receiving them with
+            // the Extended Length bit set on short values (legal, RFC 4271 4.3) - the stored flag octet
+            // keeps the bit, the value is short
+            ("relayed-extended-length".to_string(), received_with_extended_length()),
         ]
     })
+}
+
+fn received_with_extended_length() -> Vec<Attribute> {
+    let ext = |flags: u8, code: u8, v: &[u8]| -> Vec<u8> {
+        let mut b = vec![flags | 0x10, code];
+        b.extend_from_slice(&(v.len() as u16).to_be_bytes());
+        b.extend_from_slice(v);
+        b
+    };
+    let mut attrs = Vec::new();
+    let plain = |flags: u8, code: u8, v: &[u8]| -> Vec<u8> {
+        let mut b = vec![flags, code, v.len() as u8];
+        b.extend_from_slice(v);
+        b
+    };
+    attrs.extend(plain(0x40, 1, &[0]));
+    attrs.extend(plain(0x40, 2, &[2, 2, 0, 0, 0xfd, 0xe9, 0, 0, 0xfd, 0xea]));
+    attrs.extend(plain(0x40, 3, &[192, 0, 2, 1]));
+    attrs.extend(ext(0x80, 4, &[0, 0, 0, 50]));
+    attrs.extend(ext(0xc0, 8, &[0xfd, 0xe9, 0, 1]));
+    attrs.extend(ext(0xc0, 32, &[0, 0, 0xfd, 0xe9, 0, 0, 0, 1, 0, 0, 0, 2]));
+    // unknown optional transitive attribute
+    attrs.extend(ext(0xc0, 99, &[1, 2, 3]));
+    let nlri = [24u8, 10, 9, 9];
+    let total = 19 + 2 + 2 + attrs.len() + nlri.len();
+    let mut buf = BytesMut::new();
+    buf.extend_from_slice(&[0xff; 16]);
+    buf.extend_from_slice(&(total as u16).to_be_bytes());
+    buf.extend_from_slice(&[2, 0, 0]);
+    buf.extend_from_slice(&(attrs.len() as u16).to_be_bytes());
+    buf.extend_from_slice(&attrs);
+    buf.extend_from_slice(&nlri);
+    let mut c = PeerCodec::new();
+    c.set_family(Family::IPV4, rustybgp_packet::bgp::FamilyState::default());
+    match c.try_parse(&mut buf) {
+        Ok(Some(ParsedMessage::Update(rustybgp_packet::bgp::ParsedUpdate::Routes { attrs, error_attrs, .. }))) if error_attrs.is_empty() && attrs.len() >= 5 => attrs,
+        other => panic!("harness: the decoder does not accept attributes received with the Extended Length bit: {:?}", other.map(|m| m.is_some())),
+    }
 }
 
 impl AttrSpec {
